@@ -127,7 +127,7 @@ pub struct Lower {
 
 impl Lower {
     pub fn new() -> Self {
-        Lower { next_id: 1 }
+        Lower { next_id: 1 << 40 }
     }
     fn card(&mut self, body: CardBody) -> Card {
         let id = self.next_id;
